@@ -2,7 +2,6 @@ import D2V.Model.Seq
 import D2V.Proofs.RoundGo
 import Mathlib.Tactic.Linarith
 import Mathlib.Tactic.NormNum
-import Mathlib.Tactic.Positivity
 /-! C23 — Sequence diagrams keep actor and message order.
 
   Theorems over the model of `d2layouts/d2sequence` (Model/Seq.lean), for any number of actors and messages:
